@@ -5,6 +5,7 @@ import Driver.Ops.C04
 import Driver.Ops.C05
 import Driver.Ops.C06
 import Driver.Ops.C07
+import Driver.Ops.C08
 import Driver.Ops.C12
 import Driver.Ops.C14
 import Driver.Ops.C15
@@ -22,6 +23,7 @@ def allOps : OpTable :=
   ++ opsC05
   ++ opsC06
   ++ opsC07
+  ++ opsC08
   ++ opsC12
   ++ opsC14
   ++ opsC15
